@@ -179,6 +179,9 @@ class RunConfig(object):
         self.inlinelimit = rng.choice((1, 1, 1, 2, 4))
         self.limitmb = rng.choice((128, 128, 1e-3, 1e-4, 1e-5))
         self.long_text_p = rng.choice((0.0, 0.08, 0.3))
+        # buffer of the per-document CompoundWriter sub-streams (32 KB in the library): small
+        # values make ordinary segments cross the spill path that otherwise needs >64 KB columns
+        self.cbuf = rng.choice((32768, 32768, 4096, 512, 64))
         for kk, vv in force.items():
             setattr(self, kk, vv)
 
@@ -208,6 +211,7 @@ class RunConfig(object):
                 "compound": self.compound, "blocklimit": self.blocklimit,
                 "compression": self.compression, "limitmb": self.limitmb,
                 "inlinelimit": getattr(self, "inlinelimit", 1),
+                "cbuf": getattr(self, "cbuf", 32768),
                 "long_text_p": self.long_text_p}
 
 
